@@ -184,6 +184,8 @@ func runC02(c *eng.Ctx) {
 	}
 
 	// ---- R10: a snapshot belongs to the caller
+	r11 := c.Rule("C02.R11", "H:idiom", "(shared with C01.R14) the OnAdd handlers do not skip the informer's initial list: a namespace or object that appears between the two lists would stay out of every snapshot", 2)
+	runInitialListHandled(c, r11)
 	r10 := c.Rule("C02.R10", "D:ownership", "monitor.Snapshot and resourceInformer.getCachedObjects return a slice allocated by that call (a caller renders it later, while other queues take their own snapshots of the same binding)", 2)
 	for _, key := range []string{pkgKem + ".(*monitor).Snapshot", pkgKem + ".(*resourceInformer).getCachedObjects"} {
 		f := r10.NeedFunc(key)
